@@ -46,7 +46,7 @@ func escapeGoStyle(s string) string { return html.EscapeString(s) }
 func propC14(c *ctx) error {
 	res := c.res
 	res.Rule = "all strings of length <= 3 (thorough) / <= 2 (quick) over the alphabet \" ' ` \\ { } $ newline tab U+0001 é U+1F600 a, plus random longer strings, written in each quoting style that can express them; evaluated directly and embedded in :text and a dynamic attribute delimited by either quote; distinct = distinct (string, style, embedding); non-trivial = all"
-	alpha := []string{"\"", "'", "`", "\\", "{", "}", "$", "\n", "\t", "\x01", "é", "\U0001F600", "a"}
+	alpha := []string{"\"", "'", "`", "\\", "{", "}", "$", "\n", "\t", "\x01", "é", "\U0001F600", "a", "\uFFFD"}
 	r := newRng(c.seed, "C14")
 	check := func(s string) error {
 		styles := []struct{ name, lit string }{{"dq", encodeQ(s, '"')}, {"sq", encodeQ(s, '\'')}}
@@ -145,7 +145,10 @@ func propC14(c *ctx) error {
 	// source text of the expression language, nobody un-escapes it before it is compiled)
 	for _, s := range []string{"&amp;", "&lt;", "&gt;", "&quot;", "&#39;", "&#x60;", "&copy", "&copy;", "Tom &amp; Jerry", "?id=1&copy=2", "&amp;amp;", "&", "a&b;", "&#34;x", "&nbsp;", "&#0;",
 		// strings that SPELL comment delimiters of the expression language: inside a literal they are just characters
-		"image/*", "*/*", "src/**/*.go", "/* TODO", "a // b", "*/ x /*", "/*", "*/", "//", "/**/", "http://x/y", "a /* b */ c", "/*/", "*//*", "//\n", "/* \n"} {
+		"image/*", "*/*", "src/**/*.go", "/* TODO", "a // b", "*/ x /*", "/*", "*/", "//", "/**/", "http://x/y", "a /* b */ c", "/*/", "*//*", "//\n", "/* \n",
+		// characters that look like decoding accidents but are characters: U+FFFD itself, U+FEFF, U+0000-free controls, the
+		// last code points of the planes, combining marks, right-to-left marks
+		"\uFFFD", "a\uFFFDb", "\uFFFD\uFFFD", "\uFEFF", "\u200F", "e\u0301", "\U0010FFFF", "\uFFFE", "\u007f", "\u0085", "\u2028\u2029"} {
 		if err := check(s); err != nil {
 			return err
 		}
